@@ -62,7 +62,7 @@ fn run_crash(scn: &Scenario, prop: &str, explore: bool) -> RunResult {
     let mut found: Vec<(crate::world::Violation, CrashPoint)> = Vec::new();
     let known: Vec<String> = crate::evidence::load_findings().into_iter().filter(|f| f.status == "known").map(|f| f.signature).collect();
     let mut unknown = 0usize;
-    let soft_ms: u64 = if tier == Tier::Quick { 10_000 } else { 150_000 };
+    let soft_ms: u64 = if tier == Tier::Quick { 90_000 } else { 300_000 };
     // model at the start of each segment
     let seg_start_model = |w: &World, si: usize| -> Model {
         let first = w.recs.iter().find(|x| x.seg == si).map(|x| x.i).unwrap_or(0);
